@@ -21,6 +21,66 @@ CLAUSES = [
     G.P({1: "one", "r": "${1}"}),
     G.P({"a": {"b": {"c": "${x}"}}, "x": "${y}", "y": [1, {"k": "${z}"}], "z": None, "r": "${a:b:c}"}),
 ]
+# known finding F2: a mapping that writes one key twice (k and =k) makes ${t:k} differ from the rendered t.k
+CLAUSES.append({"op": "params", "layers": [G.enc({"t": {"k": {"p": 1}}}), {"m": [["t", {"m": [["k", None], ["=k", G.enc({"q": 2})]]}]]}, G.enc({"a": "${t:k}"})]})
+CLAUSES.append({"op": "params", "layers": [G.enc({"t": {"k": [1]}}), {"m": [["t", {"m": [["k", [2]], ["~k", [3]]]}]]}, G.enc({"a": "${t:k}"})]})
+
+
+def walk_path(tree, segs):
+    """Value at a path of string keys inside a rendered tree (protocol encoding), or None."""
+    cur = tree
+    for sg in segs:
+        if not (isinstance(cur, dict) and "m" in cur):
+            return None
+        nxt = None
+        for k, v in cur["m"]:
+            if isinstance(k, dict) and k.get("s") == sg:
+                nxt = v
+                break
+        else:
+            return None
+        cur = nxt
+    return cur
+
+
+def dup_marker_keys(x):
+    """Does some mapping write one key twice (with and without a marker)?"""
+    if isinstance(x, dict) and "m" in x:
+        ks = [repr(G.strip_marker(k)) for k, _ in x["m"]]
+        if len(set(ks)) < len(ks):
+            return True
+        return any(dup_marker_keys(v) for _, v in x["m"])
+    if isinstance(x, list):
+        return any(dup_marker_keys(v) for v in x)
+    return False
+
+
+def whole_ref_violations(req, impl):
+    """The statement evaluated on the implementation's output: a key whose only definition is a
+    whole-value reference with a literal path must equal the rendered value at that path."""
+    rd = (impl.get("rendered") or {}).get("ok")
+    if rd is None:
+        return []
+    defs = {}
+    for L in req["layers"]:
+        for k, v in L["m"]:
+            defs.setdefault(repr(G.strip_marker(k)), []).append((k, v))
+    out = []
+    for kk, dv in defs.items():
+        if len(dv) != 1:
+            continue
+        k, v = dv[0]
+        if not (isinstance(k, str) and isinstance(v, str) and v.startswith("${") and v.endswith("}") and v.count("$") == 1 and "\\" not in v):
+            continue
+        segs = v[2:-1].split(":")
+        got = walk_path(rd, [G.strip_marker(k)])
+        exp = walk_path(rd, segs)
+        if got is None or exp is None:
+            continue
+        if core.strip_flags(core.canon(got)) != core.strip_flags(core.canon(exp)):
+            out.append("parameter %s = %s renders to %s, but the rendered value at that path is %s" % (
+                k, v, str(core.strip_flags(got))[:120], str(core.strip_flags(exp))[:120]))
+    return out
 
 
 class C03(ParamsProp):
@@ -48,6 +108,23 @@ class C03(ParamsProp):
                 # permuted twin
                 perm = r.shuffle(layers[0]["m"])
                 yield {"op": "params", "layers": [{"m": perm}], "twin_of": core.case_hash(c)}
+
+    def judge(self, req, impl, reply):
+        j = super().judge(req, impl, reply)
+        if j.get("skip") or not isinstance(impl, dict) or req.get("op") != "params":
+            return j
+        bad = whole_ref_violations(req, impl)
+        if bad:
+            j["impl_oracle"] = False
+            j["concrete"] = True
+            j["why"] = (j["why"] + "; " if j.get("why") else "") + "; ".join(bad[:2])
+        return j
+
+    def matches_known(self, finding, req, impl, reply):
+        if finding.get("id") != "F2":
+            return False
+        j = self.judge(req, impl, reply)
+        return j["agree"] and any(dup_marker_keys(L) for L in req["layers"])
 
     def nontrivial(self, req, impl, reply):
         return has_ref(req["layers"]) and isinstance(impl, dict) and (
